@@ -94,6 +94,10 @@ pub struct ZKey {
     pub public: SignedPublicKey,
     /// the same key with primary and subkeys locked under `pw`
     pub locked: SignedSecretKey,
+    /// primary key unprotected, subkeys locked with `pw`
+    pub sub_locked: SignedSecretKey,
+    /// primary key locked with `pw`, subkeys unprotected
+    pub prim_locked: SignedSecretKey,
     pub pw: Password,
 }
 
@@ -184,7 +188,11 @@ fn generate(kind: Kind) -> ZKey {
     for sk in locked.secret_subkeys.iter_mut() {
         sk.key.set_password(&mut rng, &pw).expect("zoo lock subkey");
     }
-    ZKey { kind, version, secret, public, locked, pw }
+    let mut sub_locked = secret.clone();
+    sub_locked.secret_subkeys = locked.secret_subkeys.clone();
+    let mut prim_locked = secret.clone();
+    prim_locked.primary_key = locked.primary_key.clone();
+    ZKey { kind, version, secret, public, locked, sub_locked, prim_locked, pw }
 }
 
 static ZOO: OnceLock<Vec<OnceLock<ZKey>>> = OnceLock::new();
